@@ -258,6 +258,63 @@ impl C20Wire {
             );
             return out;
         }
+        // ---- scrapes while DHCP traffic is being handled: rows are only ever added here (every
+        // lease runs >= 300 s), so a scrape between two listings reports a count between theirs
+        {
+            let count_listing = || -> Option<i64> {
+                let r = http_unix(CONTROL, Some("/var/lib/erbium/cli.sock"), "/api/v1/leases.json").ok()?;
+                if r.status != 200 {
+                    return None;
+                }
+                let v: serde_json::Value = serde_json::from_slice(&r.body).ok()?;
+                Some(v.get("leases")?.as_array()?.len() as i64)
+            };
+            let mut stale: Option<String> = None;
+            let mut scrapes = 0;
+            let mut next_client = 30000usize;
+            for round in 0..8 {
+                let Some(before) = count_listing() else { continue };
+                // a burst of back-to-back DISCOVERs from new clients: the server is still working
+                // through it (one task per packet, all wanting the lease store) when the scrape
+                // arrives
+                for _ in 0..30 {
+                    let m = discover(next_client, 0x7700_0000 + next_client as u32, 0x8000);
+                    next_client += 1;
+                    let _ = self.raw.send(&dhcp_frame(&m));
+                }
+                if round % 2 == 1 {
+                    std::thread::sleep(Duration::from_millis(2));
+                }
+                let g = self.gauges();
+                let Some(after) = count_listing() else { continue };
+                if let Ok((a, e)) = g {
+                    scrapes += 1;
+                    if a < before || a > after || e != 0 {
+                        stale = Some(format!(
+                            "listing before the scrape: {} leases, after: {}; the scrape in between reports active={} expired={}",
+                            before, after, a, e
+                        ));
+                        break;
+                    }
+                }
+            }
+            std::thread::sleep(Duration::from_millis(150));
+            self.raw.drain();
+            if scrapes > 0 {
+                out.class("scraped-under-dhcp-load");
+            }
+            if let Some(d) = stale {
+                out.fail("C20:gauge-stale-under-load", d);
+                return out;
+            }
+        }
+        let rows = match db_rows() {
+            Ok(r) => r,
+            Err(e) => {
+                out.fail("rig-error", e);
+                return out;
+            }
+        };
         // ---- gauges with both classes non-empty
         if c.age_every > 0 {
             if let Ok(conn) = rusqlite::Connection::open(LEASE_DB) {
@@ -1154,8 +1211,12 @@ pub fn run_c17_wire(ctx: &Ctx) {
         captive: Tri::Absent,
         pref64: None,
     };
-    for mtu in [Tri::Absent, Tri::Null, Tri::Val(1400u32)] {
+    // configured MTUs below, at and above the MTU of the link the service answers on (1500)
+    for mtu in [Tri::Absent, Tri::Null, Tri::Val(1400u32), Tri::Val(1500), Tri::Val(9000), Tri::Val(1280), Tri::Val(65535)] {
         for lifetime in [Tri::Absent, Tri::Null, Tri::Val(Dur { secs: 3600, style: 1 })] {
+            if matches!(mtu, Tri::Val(v) if v != 1400 && v != 9000) && !matches!(lifetime, Tri::Absent) {
+                continue;
+            }
             let mut iface = base.clone();
             iface.mtu = mtu.clone();
             iface.lifetime = lifetime;
@@ -1181,9 +1242,7 @@ pub fn run_c17_wire(ctx: &Ctx) {
             }
         }
     }
-    if ctx.tier == Tier::Thorough {
-        run_wire(ctx, &prop, ra_case_strategy(), 60, 1);
-    }
+    run_wire(ctx, &prop, ra_case_strategy(), ctx.tier.pick(12, 120), 1);
 }
 
 // ---------------------------------------------------------------------------------------------
